@@ -123,7 +123,7 @@ def wire_monitor(wire, own_parity, channel_sids=()):
 
 class C08(EngineProp):
     id = 'C08'
-    lean_modules = ['RSocketModel.Props.C08']
+    lean_modules = ['RSocketModel.Props.C08', 'RSocketModel.Props.C05Sites']
     profiles = ['legal', 'legal', 'cancel', 'loss']
     technique = 'Lean 4 proof (per-stream wire monitor as an invariant of the engine model) + event-level differential correspondence'
     level_text = ('PARTIAL. Kernel-checked for every reachable state of the engine model and every event: c08_opens_with_request_own_parity (fresh non-zero id of own parity, the only frame queued is the request), '
